@@ -276,3 +276,24 @@ def check_ids_rooted_at_self(rep, prog, rid):
         rep.check(len(esk) == 1 and esk[0][1][:1] == ['self._key'], rid, 'PGPKey.encrypt', 'encrypt_sk(%s...)' % (esk[0][1][:1] if esk else None),
                   'the session key must be encrypted to the key material of self', where=f.where)
         break
+
+
+RFC_HASH_IDS = {'MD5': 1, 'SHA1': 2, 'RIPEMD160': 3, 'SHA256': 8, 'SHA384': 9, 'SHA512': 10, 'SHA224': 11}
+RFC_PK_IDS = {'RSAEncryptOrSign': 1, 'RSAEncrypt': 2, 'RSASign': 3, 'ElGamal': 16, 'DSA': 17, 'ECDH': 18, 'ECDSA': 19,
+              'FormerlyElGamalEncryptOrSign': 20, 'DiffieHellman': 21, 'EdDSA': 22}
+
+
+def check_algorithm_ids(rep, prog, rid):
+    """Hash and public-key algorithm ids against RFC 4880 9.1 / 9.4, RFC 6637 5 and the EdDSA draft (independent oracle): these
+    octets are hashed in every signature trailer and written into every key, signature and session-key packet."""
+    for cname, table, what in (('HashAlgorithm', RFC_HASH_IDS, 'hash'), ('PubKeyAlgorithm', RFC_PK_IDS, 'public-key')):
+        ci = prog.cls('pgpy.constants', cname)
+        mem = ci.enum_members()
+        bad = {k: (mem.get(k), v) for k, v in table.items() if mem.get(k) != v}
+        rep.check(not bad, rid, cname, 'ids %s' % (bad or 'all RFC values'), '%s algorithm ids must be the RFC values' % what, where=ci.where,
+                  expected={k: v for k, v in table.items() if k in bad}, found={k: v[0] for k, v in bad.items()})
+    h = prog.cls('pgpy.constants', 'HashAlgorithm')
+    f = h.methods.get('hasher')
+    for s in Interp(prog, Scenario(inline=noinline)).run(f):
+        rep.check(render(s.ret) in ('hashlib.new(self.name)', 'HASHER(self.name;)'), rid, 'HashAlgorithm.hasher', render(s.ret),
+                  'the hasher is a fresh hashlib object of the algorithm\'s own name', where=f.where)
